@@ -1,6 +1,8 @@
 package otto
 
 import (
+	"fmt"
+	"math"
 	"reflect"
 	"strconv"
 )
@@ -40,6 +42,8 @@ func (o *goSliceObject) setLength(value Value) {
 	switch {
 	case wantInt == o.value.Len():
 		// No change needed.
+	case want < 0 || want > math.MaxUint32:
+		panic(conversionException(fmt.Errorf("RangeError: invalid slice length %d", want)))
 	case wantInt < o.value.Cap():
 		// Fits in current capacity.
 		if o.value.CanSet() {
